@@ -49,6 +49,15 @@ def str_method(name, recv, *args, **kw):
         if hook is not None:
             return hook(recv, *args)
         raise OutOfSubset('str.replace on a symbolic string needs theory.sym_replace')
+    if name == 'partition':
+        sep = _s(args[0])
+        idx = z3.IndexOf(r, sep, 0)
+        found = idx >= 0
+        n = z3.Length(r)
+        head = z3.If(found, z3.SubString(r, 0, idx), r)
+        mid = z3.If(found, sep, z3.StringVal(''))
+        tail = z3.If(found, z3.SubString(r, idx + z3.Length(sep), n), z3.StringVal(''))
+        return (mk_str(head), mk_str(mid), mk_str(tail))
     if name == 'find':
         return mk_int(z3.IndexOf(r, _s(args[0]), 0))
     if name == 'format':
@@ -81,3 +90,50 @@ def str_method(name, recv, *args, **kw):
     if hook is not None:
         return hook(name, recv, *args, **kw)
     raise OutOfSubset('str.%s on a symbolic string' % name)
+
+
+# ---- interpreted lower() for counterexample search (bounded length; ASCII) ----------------------------------
+LOWER_BOUND = 2
+
+
+def _lc(c):
+    """lower-case of a one-character string term"""
+    code = z3.StrToCode(c)
+    return z3.If(z3.And(code >= 65, code <= 90), z3.StrFromCode(code + 32), c)
+
+
+def _uc(c):
+    code = z3.StrToCode(c)
+    return z3.If(z3.And(code >= 97, code <= 122), z3.StrFromCode(code - 32), c)
+
+
+def interp_strings(t, cache=None, side=None):
+    """substitute a character-wise definition for the uninterpreted lower()/upper(), valid for strings of length
+    <= LOWER_BOUND; the length bounds are collected in `side` (list) and must be asserted with the formula.
+    Used only in refutation passes (a candidate counterexample is then replayed on the real code)."""
+    if cache is None:
+        cache = {}
+    if side is None:
+        side = []
+    i = t.get_id()
+    r = cache.get(i)
+    if r is not None:
+        return r[1]
+    if z3.is_quantifier(t) or not z3.is_app(t) or t.num_args() == 0:
+        r = t
+    else:
+        args = [interp_strings(a, cache, side) for a in t.children()]
+        d = t.decl()
+        if d.eq(_LOWER) or d.eq(_UPPER):
+            f = _lc if d.eq(_LOWER) else _uc
+            x = args[0]
+            side.append(z3.Length(x) <= LOWER_BOUND)
+            r = z3.Concat(*[z3.If(z3.Length(x) > k, f(z3.SubString(x, k, 1)), z3.StringVal(''))
+                            for k in range(LOWER_BOUND)])
+        else:
+            try:
+                r = d(*args)
+            except z3.Z3Exception:
+                r = t
+    cache[i] = (t, r)
+    return r
